@@ -48,6 +48,9 @@ def build_cases(tier_, rnd):
             for n in (1, 3):
                 cases.append(dict(id="eagain-proc|%s|%d|%d" % (sc["name"], j, n), tree=sc["tree"], feat={"openat2": True}, trace=True, raw=True, calls=sc["calls"],
                                   faults=[dict(call=j, nr="openat2", errno=11, count=n, cls="proc")], meta=dict(scenario="eagain-proc-" + sc["name"], feat="kernel")))
+    # concurrent first use of the global procfs handle by the threads of one process (untraced: judged on the descriptor listing)
+    from checks import c09
+    cases += c09.thread_race_cases()
     return cases
 
 
